@@ -23,12 +23,14 @@ for sid in sorted(os.listdir(os.path.join(ROOT, 'seeded'))):
     rows.append('| %s | %s | %s | %s | `%s` |' % (
         sid, what, ' '.join(sorted(caught)) or '**none**',
         ' '.join(sorted(tried - caught)) or '-', mech))
-head = ('180 independently written breakages (round 1: two per property, ids '
+head = ('240 independently written breakages (round 1: two per property, ids '
         '`Cxx-a/b`; round 2: three per property, ids `Cxx-r2a/b/c`; round 3, '
         'asked for changes that need two coinciding conditions: two per '
         'property, ids `Cxx-r3a/b`; round 4, asked for two cooperating edits '
         '(a) and an error / reuse / exact-boundary path (b): ids '
-        '`Cxx-r4a/b`), all '
+        '`Cxx-r4a/b`; round 5, agents were told that a strong randomized '
+        'harness exists and asked for changes it would be likely to miss: '
+        'three per property, ids `Cxx-r5a/b/c`), all '
         'confirmed (apply, 176 repository tests pass, demonstration fails '
         'with / passes without). "caught by" lists every quick check that '
         'reported a VIOLATION on a scratch copy with the patch applied (the '
@@ -36,7 +38,7 @@ head = ('180 independently written breakages (round 1: two per property, ids '
         'run); "also run, silent" the others that were tried. The last '
         'column is the first mechanism the tagged check printed.\n\n'
         'First-pass result before any strengthening: round 1 36/40 caught by '
-        'the tagged check, round 2 44/60, round 3 27/40, round 4 30/40. Each miss was '
+        'the tagged check, round 2 44/60, round 3 27/40, round 4 30/40, round 5 21/60. Each miss was '
         'analysed and the '
         'check strengthened (never the seeded change adapted): C02 codec '
         'spelling sweep; C07 exact-byte-count and mid-line-cut mechanisms; '
@@ -63,10 +65,31 @@ head = ('180 independently written breakages (round 1: two per property, ids '
         'context; C16 cold / warm library state and >= 64 KiB buffers split '
         'repeatedly; C18 / C19 equality with an untouched twin before and '
         'after observers, equality matrix under observers, foreign files '
-        'with {} metadata; C20 dos metadata. After that 179 of 180 are '
-        'caught by their tagged check; C04-r4a only manifests for '
-        "encoding='' which is outside C04's quantifier (its meta.json says "
-        'why).\n\n'
+        'with {} metadata; C20 dos metadata. (round 5) documents placed at a '
+        'non-zero stream offset and consumers that empty what they were '
+        'yielded (every reader-driven check, via common.read_records); '
+        'buffered streams with tiny buffers / peek(); sizes of exactly '
+        '1 MiB +- 1 and 3 MiB, indents of 65535 / 65536 / 70001, first lines '
+        'of 1 K / 4 K / 8 K / 64 K; a fuzzing dictionary harvested from the '
+        "literals of the tree under test (magic markers); C03 more values "
+        'per defect (version=1.00, format=0 ...); C04 second pass of one '
+        'reader, statistics never read a diff through a container encoding; '
+        'C05 one shared DiffXDOMWriter; C06 re-spelled container encodings, '
+        'from_stream at an offset; C08 forward-only streams must be closed; '
+        'C09 exotic legal codec names, positional optional arguments; C11 '
+        '"%" in the alphabet, blank lines with the other terminator first; '
+        'C13 4400-digit hunk numbers, look-alike first lines, container '
+        'encodings; C14 marker look-alikes, > 1 KiB lines; C15 statistics per '
+        'spelling, look-alike pairs; C16 same-ends buffer pairs, > 1 MiB '
+        'lines; C17 stream offsets, buffer-boundary files, headers up to '
+        '70 kB; C18 structural view invariants, in-place list edits, '
+        'None-valued options, integer-key metadata; C19 several perturbation '
+        'styles, spelled encodings stored verbatim; C20 markdown preambles '
+        'with fenced code, one-line diffs, "GIT binary patch". After that '
+        '236 of 240 are caught by their tagged check; the other four '
+        "(C04-r4a encoding='', C02-r5a UTF-7, C03-r5a / C06-r5c "
+        'under-indented foreign lines) only manifest outside the quantifier '
+        'of their property and each meta.json says why.\n\n'
         '| id | change | caught by | also run, silent | first mechanism (tagged check) |\n'
         '|---|---|---|---|---|\n')
 mut = json.load(open(os.path.join(ROOT, 'mutants', 'index.json')))
